@@ -40,7 +40,12 @@ def explore(res, rng, n):
         cands, us = [], []
         prop = lambda c: cands[-1]
         start = np.array(cur, dtype=float) if i % 3 == 0 else list(map(float, cur))
-        s = rpm.MetropolisHastingsSampler(initialVal=start, targetPdf=f, proposalCSampler=prop, sampleDomain=dom)
+        # an integer randomSeed re-seeds numpy's global generator, nothing else: the acceptance draw is still THE uniform draw of that generator
+        # (scripted below); a sampler that draws from a generator of its own would not see it
+        seed_kw = {'randomSeed': rng.choice([0, 7, 12345])} if i % 4 == 1 else {}
+        if seed_kw:
+            res.stat('mh_sampler_with_integer_seed')
+        s = rpm.MetropolisHastingsSampler(initialVal=start, targetPdf=f, proposalCSampler=prop, sampleDomain=dom, **seed_kw)
         state = list(cur)
         for step in range(rng.choice([1, 3, 6])):
             cand = [v + rng.choice([-1, 0, 1, 2]) for v in state]
@@ -94,7 +99,8 @@ def explore(res, rng, n):
         dom = lambda c, nx, lim=lim: bool(np.sum(np.abs(nx)) <= lim)
         cand = list(cur)
         props = [(lambda c, j=j: float(cand[j])) for j in range(d)]
-        s = rpm.AuModifiedMHSampler(initialVal=list(map(float, cur)), targetPdf=fs, proposalCSampler=props, sampleDomain=dom)
+        s = rpm.AuModifiedMHSampler(initialVal=list(map(float, cur)), targetPdf=fs, proposalCSampler=props, sampleDomain=dom,
+                                    **({'randomSeed': rng.choice([0, 3, 99])} if i % 4 == 2 else {}))
         # a chain of steps on ONE sampler object (scratch buffers persist between steps)
         for step in range(rng.choice([1, 2, 4, 6])):
             cand[:] = [v + rng.choice([-1, 1, 2, 0, 3]) for v in cur]
